@@ -83,8 +83,33 @@ Example C02_monitor_rejects_stall :
   c02_ok cfg ops (wrun cfg ops) = true /\ c02_ok cfg ops stalled = false.
 Proof. vm_compute. split; reflexivity. Qed.
 
+(* ------------------------------------------------------------------------------------------ *)
+(* Server side, wake-driven (model: ServerWake.v over Server.v; statements pinned in
+   ServerWakeSpec.v; proofs ServerWakeSettles.v, ServerWakeMon*.v).  Names are qualified. *)
+From TarpcV Require Server ServerMon ServerWake ServerWakeSpec ServerWakeSettles ServerWakeMon.
+
+(* every settle (poll the Requests stream, then every live execute() future, round after round
+   until nothing changes) of every wake-driven run terminates within its rounds budget *)
+Theorem C02_server_settles :
+  forall (c : Server.cfg) (t0 : Transport.stransport Server.cmsg) (ops : list ServerWake.swop),
+    ServerWakeSpec.no_wfuel (ServerWake.swrun c t0 ops) = true.
+Proof. exact ServerWakeSettles.w_settle_terminates_holds. Qed.
+
+(* the server wake monitor accepts every wake-driven run of the model: at every fixpoint no
+   execute() is left running after its cancel / deadline / the channel's drop, no finished handler
+   or buffered response is stuck while the sink is writable, every delivered message was read,
+   gauges agree (B1 inside the monitor; K2 exempt inside clauses a, c, e) *)
+Theorem C02_server_monitor :
+  forall (c : Server.cfg) (cap : nat) (coupled : bool) (ops : list ServerWake.swop),
+    (1 <= Server.cfg_buf c)%nat -> forallb ServerWakeSpec.wake_op ops = true ->
+    ServerWake.c02s_ok c (Transport.st_init Server.cmsg cap coupled) ops
+      (ServerWake.swrun c (Transport.st_init Server.cmsg cap coupled) ops) = true.
+Proof. exact ServerWakeMon.w_monitor_holds. Qed.
+
 Print Assumptions C02_monitor.
 Print Assumptions C02_dead_resolved.
 Print Assumptions C02_quiescent_resolved.
 Print Assumptions C02_poll_total.
 Print Assumptions C02_settles.
+Print Assumptions C02_server_settles.
+Print Assumptions C02_server_monitor.
